@@ -1,13 +1,13 @@
 #!/bin/bash
 # tools/mutant_iso.sh <patch.diff> <Cxx> [<Cyy> ...]
 # Like tools/mutant.sh, but isolated: the patch is applied to a scratch worktree of /repo
-# (/tmp/ws_mut/repo, checked out at /repo's HEAD) and the checks are built from a copy of
+# ($MUT_WS or /tmp/ws_mut: <ws>/repo, checked out at /repo's HEAD) and the checks are built from a copy of
 # /verif/harness that path-depends on that worktree, so /repo itself (and background runs that
 # build from it) are never touched. Prints CAUGHT / MISSED / INCONCLUSIVE per check.
 set -u
 ROOT="$(cd "$(dirname "${BASH_SOURCE[0]}")/.." && pwd)"
 PATCH="$(realpath "$1")"; shift
-WS=/tmp/ws_mut
+WS="${MUT_WS:-/tmp/ws_mut}"
 export CARGO_NET_OFFLINE=true
 if [ ! -d "$WS/repo" ]; then
   mkdir -p "$WS/out"
